@@ -14,9 +14,8 @@ Require Import SC3.proofs.C04_lags SC3.proofs.C04_total SC3.proofs.C04_bridge.
 Require SC3.model.Scgf.
 Open Scope nat_scope.
 
-(* the control parameters of f, as entries with a provisional index *)
-Definition entries (specs : list (string * Q)) (st : bstate) (f : fsig) : list cname :=
-  mk_cnames specs (f_rates f) (length (st_controls st)) 0 (skipn (f_prepend f) (f_params f)).
+(* [entries specs st f] (proofs/C04_lags.v) = the control parameters of f, as name-table entries with a
+   provisional index: mk_cnames over the parameters after `prepend` *)
 
 (* slot_of base cns i c = base + (slots of all earlier rate groups ir < tr < ar < kr)
                                + (slots of the earlier parameters of c's own rate group) *)
@@ -83,65 +82,34 @@ Proof.
   destruct K as [(_ & -> & _)|(_ & ->)]; [left|right]; assumption.
 Qed.
 
-(* lagged control-rate parameters carry their lag times.  [klags g] = for every kr parameter in
-   declaration order its lag (a number, or a list used cyclically: utils.wrap_extend) repeated
-   over its slots, concatenated.  If any of them is non-zero the kr group is made of LagControl
-   units and the lag input next to the output bound to channel j of the parameter is the element
-   of that list at (slots of the earlier kr parameters + j); if all are zero it is a plain Control.
-   FULL statement wanted (not proved, hence _partial): "... is nth (j mod length l) l for the
-   parameter's own lag list l" -- it follows from this theorem once the offsets in [klags] and
-   in the value array are shown equal (length (wrap_extend l n) = n for l <> []). *)
-Theorem ctl_lags_partial : forall specs st f st' i c,
-  build_one fixed specs (Ok st) f = Ok st' -> st_cindex st = length (st_controls st) ->
-  nth_error (entries specs st f) i = Some c -> cn_rate c = Rkr ->
-  let kl := klags (of_rate Rkr (entries specs st f)) in
-  exists rs r, st_recv st' = st_recv st ++ [rs] /\ nth_error rs i = Some r /\
-    forall j, j < length (cn_default c) ->
-      exists un, nth_error (st_units st') (fst (nth j (r_chans r) (0, 0))) = Some un /\
-        ((existsb qnz kl = true /\ u_cls un = ULag /\
-          nth_error (u_lags un) (snd (nth j (r_chans r) (0, 0))) =
-          nth_error kl (length (gslots Rkr (firstn i (entries specs st f))) + j))
-         \/ (existsb qnz kl = false /\ u_cls un = UControl)).
-Proof.
-  intros specs st f st' i c H Hi Hn RT kl.
-  destruct (build_one_spec _ _ _ _ H Hi) as (cns' & pl & -> & _ & _ & R & _ & _ & _ & _ & L & N).
-  destruct (N i c Hn) as (p & Hp & cls & gl & K & [Hlen Hch]).
-  exists (map recv_of pl), (recv_of (set_index c (slot_of (length (st_controls st)) (entries specs st f) i c), p)).
-  split; [exact R|]. split; [rewrite nth_error_map; unfold entries, placed in *; rewrite Hp; reflexivity|].
-  cbn [recv_of r_chans snd].
-  intros j Hj. destruct (Hch j Hj) as (un & H1 & _ & _ & H4 & H5).
-  exists un. split; [assumption|]. rewrite RT in K, H5. cbn [cls_ok] in K.
-  destruct K as [(Hnz & -> & ->)|(Hnz & ->)]; [left|right]; repeat split; try assumption.
-  apply H5. reflexivity.
-Qed.
-
-(* FULL strength of ctl_lags_partial: the lag input beside the output bound to channel j of a kr
-   parameter is element (j mod len l) of the parameter's OWN lag list l (= [lag] for a number;
-   l is never empty) when the group is made of LagControls; when it is a plain Control (no
-   non-zero lag in the group) that element is zero.  cn_lag c is tied to the rates argument by
-   rates_arg_overrides_annotation (cn_lag = lag_or_zero (rates[i])). *)
+(* Lagged control-rate parameters carry their lag times (FULL statement; the former
+   ctl_lags_partial, which spoke about the flattened lag list of the group, is subsumed and now a
+   lemma, C04_lags.ctl_lags_flat).  For a kr parameter c of the function, l = its own lag list
+   (= [lag] for a number, never empty; cn_lag c = lag_or_zero (rates[i]) by
+   rates_arg_overrides_annotation):
+   - the kr group of the function is made of LagControl units exactly when SOME kr parameter of
+     the function has a non-zero lag on one of its slots (its lag list read cyclically);
+   - if so, the unit bound to channel j of c is a LagControl and the lag input beside that output
+     is nth (j mod length l) l;
+   - if not, it is a plain Control and that element of l is zero. *)
 Theorem ctl_lags : forall specs st f st' i c,
   build_one fixed specs (Ok st) f = Ok st' -> st_cindex st = length (st_controls st) ->
   nth_error (entries specs st f) i = Some c -> cn_rate c = Rkr ->
+  let cns := entries specs st f in
   let l := lag_as_list (cn_lag c) in
+  let lagged := existsb qnz (klags (of_rate Rkr cns)) in
   l <> [] /\
+  (lagged = true <->
+     exists i' c' j', nth_error cns i' = Some c' /\ cn_rate c' = Rkr /\ j' < length (cn_default c') /\
+       qnz (nth (j' mod length (lag_as_list (cn_lag c'))) (lag_as_list (cn_lag c')) 0%Q) = true) /\
   exists rs r, st_recv st' = st_recv st ++ [rs] /\ nth_error rs i = Some r /\
     forall j, j < length (cn_default c) ->
       exists un, nth_error (st_units st') (fst (nth j (r_chans r) (0, 0))) = Some un /\
-        ((u_cls un = ULag /\
-          nth_error (u_lags un) (snd (nth j (r_chans r) (0, 0))) = Some (nth (j mod length l) l 0%Q))
-         \/ (u_cls un = UControl /\ qnz (nth (j mod length l) l 0%Q) = false)).
-Proof.
-  intros specs st f st' i c H Hi Hn RT l.
-  assert (Hwf : Forall lag_wf (entries specs st f)) by apply mk_cnames_lag_wf.
-  split.
-  { rewrite Forall_forall in Hwf. apply (Hwf c). eapply nth_error_In. eassumption. }
-  destruct (ctl_lags_partial specs st f st' i c H Hi Hn RT) as (rs & r & R & Nr & K).
-  exists rs, r. split; [assumption|]. split; [assumption|].
-  intros j Hj. destruct (K j Hj) as (un & Hu & [(Hnz & Hc & Hl)|(Hz & Hc)]); exists un; (split; [assumption|]).
-  - left. split; [assumption|]. rewrite Hl. apply klags_at; assumption.
-  - right. split; [assumption|]. eapply klags_all_zero; eassumption.
-Qed.
+        if lagged
+        then u_cls un = ULag /\
+             nth_error (u_lags un) (snd (nth j (r_chans r) (0, 0))) = Some (nth (j mod length l) l 0%Q)
+        else u_cls un = UControl /\ qnz (nth (j mod length l) l 0%Q) = false.
+Proof. exact ctl_lags_full. Qed.
 
 (* the name-table entry of the i-th control parameter: name, rate, defaults and lag *)
 Theorem entries_are_parameters : forall specs st f i p,
@@ -412,6 +380,18 @@ Example snapshot_laglist_refuted :
                                    f_rates := [RsLags [1 # 8; 1 # 4]]; f_prepend := 0 |}] with
   | Ok st => (st_controls st, length (st_units st)) | Err _ => ([], 0) end = ([1; 2; 3; 1; 2; 3]%Q, 2).
 Proof. vm_compute. reflexivity. Qed.
+
+(* the hypotheses of ctl_lags are met: parameter "a" of the example is a kr parameter with lag 1/2 and
+   the kr group is lagged; the second kr parameter "e" shares the LagControl with lag 0 *)
+Example ctl_lags_example :
+  exists st' c, build_one fixed [("e", 9%Q)] (Ok st0) ex_sig = Ok st' /\
+    st_cindex st0 = length (st_controls st0) /\
+    nth_error (entries [("e", 9%Q)] st0 ex_sig) 0 = Some c /\ cn_rate c = Rkr /\
+    lag_as_list (cn_lag c) = [1 # 2]%Q /\
+    existsb qnz (klags (of_rate Rkr (entries [("e", 9%Q)] st0 ex_sig))) = true /\
+    map (fun u => (u_cls u, u_lags u)) (st_units st') =
+      [(UControl, []); (UTrig, []); (UAudio, []); (ULag, [1 # 2; 0]%Q)].
+Proof. vm_compute. eexists. eexists. repeat split; reflexivity. Qed.
 
 (* sig_err on concrete signatures: the example builds; each error kind is reachable *)
 Example sig_ok_example : sig_err [("e", 9%Q)] ex_sig = None.
